@@ -57,24 +57,6 @@ Fixpoint ranges_nth (r : list (Z * Z)) (idx : list Z) : list Z :=
 Definition range_s32 (r : list (Z * Z)) : Prop :=
   Forall (fun p => is_s32 (fst p) /\ is_s32 (snd p)) r.
 
-(* the int additions a +- i performed by vm_get_slice_range do not leave the int range *)
-Fixpoint no_wrap (r : list (Z * Z)) (idx : list Z) : Prop :=
-  match r, idx with
-  | (a, _) :: tr, i :: ti => is_s32 (a + i) /\ is_s32 (a - i) /\ no_wrap tr ti
-  | _, _ => True
-  end.
-
-Definition compose_ok (a c d : Z) : Prop :=
-  is_s32 (a + c) /\ is_s32 (a + d) /\ is_s32 (a - c) /\ is_s32 (a - d).
-
-(* when both inner bounds are non-negative (otherwise the guard refuses the composition before
-   any addition) the additions do not wrap *)
-Fixpoint inner_ok (r1 r2 : list (Z * Z)) : Prop :=
-  match r1, r2 with
-  | (a, _) :: t1, (c, d) :: t2 => (0 <= c -> 0 <= d -> compose_ok a c d) /\ inner_ok t1 t2
-  | _, _ => True
-  end.
-
 (* both inner bounds are valid indices of the outer range, in every dimension *)
 Fixpoint inner_within (r1 r2 : list (Z * Z)) : Prop :=
   match r1, r2 with
